@@ -14,6 +14,7 @@
 (* instead of a carry.  The 32-bit quantities X0..X3, R1, R2, W, Z are words  *)
 (* <<hi16, lo16>> of module Words.                                            *)
 EXTENDS Integers, Sequences, Bitwise, Words
+LOCAL INSTANCE SequencesExt
 
 M31 == 2147483647                                   \* 2^31 - 1
 T2 == <<1, 2, 4, 8, 16, 32, 64, 128, 256, 512, 1024, 2048, 4096, 8192, 16384, 32768, 65536,
@@ -79,7 +80,9 @@ NextCell(s, u) ==
       v5 == Add31(v4, s[1])
       v6 == Add31(v5, u)
   IN  IF v6 = 0 THEN M31 ELSE v6
-Shift(s, c) == [i \in 1..16 |-> IF i < 16 THEN s[i + 1] ELSE c]
+(* TLC evaluates [i \in S |-> e] to a lazy function whose applications re-evaluate e: every function that is *)
+(* carried through a recursion is turned into a concrete tuple first (SubSeq does that).                      *)
+Shift(s, c) == SubSeq([i \in 1..16 |-> IF i < 16 THEN s[i + 1] ELSE c], 1, 16)
 
 (* 3.3 bit reorganisation: H = bits 30..15, L = bits 15..0 of a 31-bit cell *)
 HI(c) == c \div 32768
@@ -109,20 +112,16 @@ WorkStep(st) ==
   IN  [st |-> [s |-> Shift(st.s, NextCell(st.s, 0)), r1 |-> f.r1, r2 |-> f.r2],
        z  |-> WXor(f.w, X3(st.s))]
 
-RECURSIVE InitIter(_, _)
-InitIter(st, n) == IF n = 0 THEN st ELSE InitIter(InitStep(st), n - 1)
+(* Iteration is written with FoldLeft (SequencesExt; evaluated iteratively by TLC) instead of recursive   *)
+(* operators: TLC passes operator arguments as lazy values, and a value handed down a deep recursion is   *)
+(* looked up through the whole chain of callers.                                                          *)
+Upto(n) == [i \in 1..n |-> i]
 (* 3.6: 32 initialisation steps, then one working step whose output is discarded *)
-Ready(s0) == WorkStep(InitIter([s |-> s0, r1 |-> W0, r2 |-> W0], 32)).st
+Ready(s0) == WorkStep(FoldLeft(LAMBDA st, i : InitStep(st), [s |-> s0, r1 |-> W0, r2 |-> W0], Upto(32))).st
 
-(* n keystream words from state st: [st |-> state afterwards, zs |-> <<Z_1..Z_n>>].  Long keystreams are *)
-(* produced in rounds of 32 words so that TLC's cost stays linear in the length.                          *)
-RECURSIVE Gen(_, _, _)
-Gen(st, n, acc) == IF n = 0 THEN [st |-> st, zs |-> acc]
-                   ELSE LET r == WorkStep(st) IN Gen(r.st, n - 1, Append(acc, r.z))
-RECURSIVE GenRounds(_, _, _)
-GenRounds(st, n, acc) == IF n <= 32 THEN acc \o Gen(st, n, <<>>).zs
-                         ELSE LET g == Gen(st, 32, <<>>) IN GenRounds(g.st, n - 32, acc \o g.zs)
-KeystreamFrom(s0, nWords) == GenRounds(Ready(s0), nWords, <<>>)
+(* n keystream words from state st: <<state afterwards, <<Z_1..Z_n>>>> *)
+Gen(st, n) == FoldLeft(LAMBDA a, i : LET r == WorkStep(a[1]) IN <<r.st, Append(a[2], r.z)>>, <<st, <<>>>>, Upto(n))
+KeystreamFrom(s0, nWords) == Gen(Ready(s0), nWords)[2]
 
 (* ------------------------------------------------------------------------ *)
 (* 3.5 key loading, ZUC-128: s_i = k_i || d_i || iv_i  (8 + 15 + 8 bits)      *)
@@ -130,7 +129,7 @@ KeystreamFrom(s0, nWords) == GenRounds(Ready(s0), nWords, <<>>)
 D128 == <<17623, 9916, 25195, 4958, 22409, 13794, 28981, 2479,
           19832, 12051, 27588, 6897, 24102, 15437, 30874, 18348>>
    \* 0x44D7 0x26BC 0x626B 0x135E 0x5789 0x35E2 0x7135 0x09AF 0x4D78 0x2F13 0x6BC4 0x1AF1 0x5E26 0x3C4D 0x789A 0x47AC
-Load128(key, iv) == [i \in 1..16 |-> (key[i] * 8388608) + (D128[i] * 256) + iv[i]]
+Load128(key, iv) == SubSeq([i \in 1..16 |-> (key[i] * 8388608) + (D128[i] * 256) + iv[i]], 1, 16)
 
 (* ------------------------------------------------------------------------ *)
 (* ZUC-256 key/IV loading.  K = K0..K31 bytes; IV = IV0..IV16 bytes followed  *)
